@@ -153,6 +153,7 @@ static std::string wr_ident(const IdentitiesPtr& id) {
 struct Mem { std::shared_ptr<void> ptr; size_t nbytes; };
 static std::map<std::string, Mem> g_mem;
 static std::map<uintptr_t, std::string> g_mem_by_addr;
+static std::map<std::string, util::RecordLookupPtr> g_lookups;
 static std::shared_ptr<void> mem_get(const Sx* keyatom, const std::string& data, bool have_data_atom) {
   if (keyatom != nullptr) {
     auto it = g_mem.find(keyatom->a);
@@ -399,8 +400,16 @@ static ContentPtr pb(const Sx& x) {
     int64_t len = to_i64(x[3]);
     util::RecordLookupPtr lookup(nullptr);
     if (!x[4].is("tuple")) {
-      lookup = std::make_shared<util::RecordLookup>();
-      for (auto& k : x[4].l) lookup->push_back(unhex(k));
+      // equal key lists share one RecordLookup within a request (derived arrays share it in a real process;
+      // RecordArray::referentially_equal compares the pointers)
+      std::string sig = x[4].str();
+      auto it = g_lookups.find(sig);
+      if (it != g_lookups.end()) lookup = it->second;
+      else {
+        lookup = std::make_shared<util::RecordLookup>();
+        for (auto& k : x[4].l) lookup->push_back(unhex(k));
+        g_lookups[sig] = lookup;
+      }
     }
     return std::make_shared<RecordArray>(id, ps, pb_many(x, 5), lookup, len);
   }
@@ -1160,6 +1169,7 @@ int main() {
     std::string id = "?";
     g_mem.clear();
     g_mem_by_addr.clear();
+    g_lookups.clear();
     try {
       Sx cs = parse_line(line);
       id = cs[0].a;
